@@ -89,7 +89,7 @@ theorem C13_advanced_all (cmp : TextCmp) (a b : Tree) (va : a.valid = true) (vb 
 /-- Namespace nodes (declarations, hence also the prefixes they bind) are invisible: two trees
     that agree after erasing every namespace node are `deep_equal`. -/
 theorem C13_ignores_declarations (a b : Tree) (va : a.valid = true) (vb : b.valid = true)
-    (h : stripNs a = stripNs b) : deepEqual a b = true :=
+    (h : cmpStripNs a = cmpStripNs b) : deepEqual a b = true :=
   (C13_iff a b va vb).mpr (by rw [← canon_stripNs a, ← canon_stripNs b, h])
 
 /-- Prefix only: rebinding the prefix of a declaration anywhere changes nothing. (Names carry no
@@ -105,7 +105,7 @@ theorem C13_ignores_prefix (v : Value) (pre rest : List Tree) (p q ns : Nat)
     induction l with
     | nil => simp [stripNsList, Tree.value, Value.category]
     | cons k ks ih => simp only [List.cons_append, stripNsList, ih]
-  simp only [stripNs, h]
+  simp only [cmpStripNs, h]
 
 /-- Attribute order only: permuting the attribute nodes of the compared node changes nothing
     (at any depth the canonical form holds the attributes sorted by name: `canon`). -/
